@@ -23,6 +23,7 @@ import (
 	"github.com/corazawaf/coraza/v3/internal/memoize"
 	stringutils "github.com/corazawaf/coraza/v3/internal/strings"
 	"github.com/corazawaf/coraza/v3/internal/sync"
+	"github.com/corazawaf/coraza/v3/internal/verifhook"
 	"github.com/corazawaf/coraza/v3/types"
 )
 
@@ -197,6 +198,7 @@ func (w *WAF) NewTransactionWithOptions(opts Options) *Transaction {
 // Using the specified ID
 func (w *WAF) newTransaction(opts Options) *Transaction {
 	tx := w.txPool.Get().(*Transaction)
+	verifhook.Event(verifhook.PoolGet, tx, 0, 0)
 	tx.id = opts.ID
 	tx.context = opts.Context
 	tx.matchedRules = []types.MatchedRule{}
